@@ -1,9 +1,11 @@
+#![allow(dead_code)]
 mod c14;
 mod c15;
 mod c17;
 mod c18;
 mod common;
 mod guard;
+mod pd;
 
 use common::Args;
 
@@ -20,6 +22,13 @@ fn main() {
         "c15" => c15::gen(&args),
         "c17" => c17::gen(&args),
         "c18" => c18::gen(&args),
+        "c05" => pd::gen_c05(&args),
+        "c07" => pd::gen_c07(&args),
+        "c08" => pd::gen_c08(&args),
+        "c09" => pd::gen_c09(&args),
+        "c10" => pd::gen_c10(&args),
+        "c11" => pd::gen_c11(&args),
+        "c12" => pd::gen_c12(&args),
         other => {
             eprintln!("unknown subcommand {other}");
             std::process::exit(2);
